@@ -43,7 +43,7 @@ THEOREMS = {
     },
     "C11": {
         "modules": ["Abnf.Theorems.C11"],
-        "theorems": ["Abnf.C11.first_match", "Abnf.C11.first_match_none", "Abnf.C11.flag_off_union", "Abnf.C11.setFirst_top_only",
+        "theorems": ["Abnf.lparse_agree", "Abnf.C11.ends_are_reference", "Abnf.C11.first_match", "Abnf.C11.first_match_none", "Abnf.C11.flag_off_union", "Abnf.C11.setFirst_top_only",
                      "Abnf.C11.flag_last_write_wins", "Abnf.C11.exclusion"],
     },
     "C12": {
